@@ -2,13 +2,1083 @@
 Helper lemmas for Props/C09.lean (isolation of messages and units): a two-run simulation of the
 context-level model.  Two contexts that agree on what is meant to persist (tables, registers, the
 abstract error queue, the pending input up to a NUL) make the same observations and stay related.
+
+Parts: (1) buffers that agree up to a NUL; (2) the C-library number readers, (3) the pattern matcher
+and (4) the status/queue side of an error push on such buffers / states; (5) the simulation itself.
 -/
 import ScpiVerif.Spec.Isolation
-import ScpiVerif.Lemmas.IsoBase
-import ScpiVerif.Lemmas.IsoMatch
-import ScpiVerif.Lemmas.IsoRegs
-import ScpiVerif.Lemmas.IsoPrim
+import ScpiVerif.Lemmas.Fifo
 import ScpiVerif.Lemmas.Bounds
+
+set_option linter.unusedSimpArgs false
+
+/-! # part 1: buffers that agree up to a NUL -/
+
+/-
+Helper vocabulary for C09 (isolation): two byte buffers that agree up to and including an index
+holding a NUL.  Everything the parser reads lies before that NUL or is a scan that stops at it.
+-/
+
+namespace ScpiVerif.Lemmas.Isolation
+open ScpiVerif ScpiVerif.Lexer
+
+/-- same length, same bytes at every index `≤ P`, and a NUL at index `P` -/
+structure Agree (P : Nat) (b1 b2 : Bytes) : Prop where
+  len : b1.length = b2.length
+  eq : ∀ i, i ≤ P → b1.getD i 0 = b2.getD i 0
+  nul : b1.getD P 0 = 0
+
+theorem Agree.nul2 {P : Nat} {b1 b2 : Bytes} (h : Agree P b1 b2) : b2.getD P 0 = 0 := by
+  rw [← h.eq P (Nat.le_refl _)]; exact h.nul
+
+theorem Agree.symm {P : Nat} {b1 b2 : Bytes} (h : Agree P b1 b2) : Agree P b2 b1 :=
+  ⟨h.len.symm, fun i hi => (h.eq i hi).symm, h.nul2⟩
+
+theorem Agree.refl' {P : Nat} {b : Bytes} (h : b.getD P 0 = 0) : Agree P b b := ⟨rfl, fun _ _ => rfl, h⟩
+
+theorem Agree.prd {P : Nat} {b1 b2 : Bytes} (h : Agree P b1 b2) {i : Nat} (hi : i ≤ P) :
+    Prim.rd b1 i = Prim.rd b2 i := h.eq i hi
+
+theorem Agree.mrd {P : Nat} {b1 b2 : Bytes} (h : Agree P b1 b2) {i : Nat} (hi : i ≤ P) :
+    Match.rd b1 i = Match.rd b2 i := h.eq i hi
+
+/-- a non-NUL byte at an index `≤ P` is strictly before `P` -/
+theorem Agree.lt_of_ne {P : Nat} {b1 b2 : Bytes} (h : Agree P b1 b2) {i : Nat} (hi : i ≤ P)
+    (hne : b1.getD i 0 ≠ 0) : i < P := by
+  rcases Nat.lt_or_ge i P with h1 | h1
+  · exact h1
+  · have : i = P := by omega
+    subst this; exact absurd h.nul hne
+
+theorem getD_drop (b : Bytes) (off i : Nat) : (b.drop off).getD i 0 = b.getD (off + i) 0 := by
+  simp [List.getD_eq_getElem?_getD, List.getElem?_drop]
+
+/-- the tail from `off` agrees up to the (shifted) NUL -/
+theorem Agree.drop {P : Nat} {b1 b2 : Bytes} (h : Agree P b1 b2) (off : Nat) (ho : off ≤ P) :
+    Agree (P - off) (b1.drop off) (b2.drop off) := by
+  refine ⟨?_, ?_, ?_⟩
+  · simp [h.len]
+  · intro i hi
+    rw [getD_drop, getD_drop]; exact h.eq _ (by omega)
+  · rw [getD_drop]
+    have : off + (P - off) = P := by omega
+    rw [this]; exact h.nul
+
+/-- windows that end at or before the NUL are equal -/
+theorem Agree.window {P : Nat} {b1 b2 : Bytes} (h : Agree P b1 b2) (a n : Nat) (hb : a + n ≤ P + 1) :
+    (b1.drop a).take n = (b2.drop a).take n := by
+  apply List.ext_getElem?
+  intro i
+  simp only [List.getElem?_take, List.getElem?_drop]
+  split
+  · have h1 := h.eq (a + i) (by omega)
+    simp only [List.getD_eq_getElem?_getD] at h1
+    have hl := h.len
+    by_cases hlt : a + i < b1.length
+    · have hlt2 : a + i < b2.length := by omega
+      rw [List.getElem?_eq_getElem hlt, List.getElem?_eq_getElem hlt2] at h1 ⊢
+      simpa using h1
+    · rw [List.getElem?_eq_none (by omega), List.getElem?_eq_none (by omega)]
+  · rfl
+
+theorem Agree.take {P : Nat} {b1 b2 : Bytes} (h : Agree P b1 b2) (n : Nat) (hn : n ≤ P + 1) :
+    b1.take n = b2.take n := by
+  have := h.window 0 n (by omega)
+  simpa using this
+
+/-- a store below or at... strictly below `P` of the same byte at the same index keeps agreement -/
+theorem Agree.set {P : Nat} {b1 b2 : Bytes} (h : Agree P b1 b2) (i : Nat) (x : UInt8) (hi : i < P) :
+    Agree P (b1.set i x) (b2.set i x) := by
+  refine ⟨by simp [h.len], ?_, ?_⟩
+  · intro j hj
+    simp only [List.getD_eq_getElem?_getD, List.getElem?_set]
+    have hl := h.len
+    have hj' := h.eq j hj
+    simp only [List.getD_eq_getElem?_getD] at hj'
+    by_cases hij : i = j
+    · subst hij
+      simp only [if_true]
+      by_cases hlt : i < b1.length
+      · have : i < b2.length := by omega
+        simp [hlt, this]
+      · have : ¬ i < b2.length := by omega
+        simp [hlt, this]
+    · simp only [hij, if_false]; exact hj'
+  · have := h.nul
+    simp only [List.getD_eq_getElem?_getD, List.getElem?_set] at this ⊢
+    have hne : ¬ i = P := by omega
+    simp only [hne, if_false]; exact this
+
+theorem takeWhile_take_of_stop {α : Type} (p : α → Bool) : ∀ (l : List α) (n : Nat),
+    (∃ i, i < n ∧ ∃ h : i < l.length, p l[i] = false) → l.takeWhile p = (l.take n).takeWhile p := by
+  intro l
+  induction l with
+  | nil => intro n _; simp
+  | cons a t ih =>
+    intro n ⟨i, hin, hil, hp⟩
+    cases n with
+    | zero => omega
+    | succ n =>
+      rw [List.take_succ_cons, List.takeWhile_cons, List.takeWhile_cons]
+      cases hpa : p a with
+      | false => simp
+      | true =>
+        simp only [if_true]
+        congr 1
+        cases i with
+        | zero => simp [hpa] at hp
+        | succ i =>
+          apply ih
+          exact ⟨i, by omega, by simpa using hil, by simpa using hp⟩
+
+/-- the C string starting at `off ≤ P` is the same in both buffers -/
+theorem Agree.cstr {P : Nat} {b1 b2 : Bytes} (h : Agree P b1 b2) (off : Nat) (ho : off ≤ P) :
+    (b1.drop off).takeWhile (· ≠ 0) = (b2.drop off).takeWhile (· ≠ 0) := by
+  have hw := h.window off (P + 1 - off) (by omega)
+  have key : ∀ (b : Bytes), b.getD P 0 = 0 →
+      (b.drop off).takeWhile (· ≠ 0) = ((b.drop off).take (P + 1 - off)).takeWhile (· ≠ 0) := by
+    intro b hb
+    by_cases hlen : P < b.length
+    · apply takeWhile_take_of_stop
+      refine ⟨P - off, by omega, by simp only [List.length_drop]; omega, ?_⟩
+      simp only [List.getElem_drop]
+      have e : off + (P - off) = P := by omega
+      simp only [e]
+      have : b[P] = 0 := by simpa [List.getD_eq_getElem?_getD, List.getElem?_eq_getElem hlen] using hb
+      simp [this]
+    · rw [List.take_of_length_le (by simp only [List.length_drop]; omega)]
+  rw [key b1 h.nul, key b2 h.nul2, hw]
+
+end ScpiVerif.Lemmas.Isolation
+
+/-! # part 2: strtol / strtoul / strtod -/
+
+/-
+Isolation (C09) for the C-library primitives of `Model/Prim.lean`: `strtol`/`strtoul`/`strtod`
+read the memory only through `rd`, from an offset `≤ P`, and never step over a NUL, so on two
+buffers that agree up to a NUL at `P` (`Agree P b1 b2`) they return the same result.
+-/
+namespace ScpiVerif.Lemmas.Isolation
+open ScpiVerif ScpiVerif.Lexer
+
+section
+variable {P : Nat} {b1 b2 : Bytes}
+
+/-- a non-NUL byte read at `i ≤ P` leaves the next index `≤ P` -/
+theorem Agree.rd_next (h : Agree P b1 b2) {i : Nat} (hi : i ≤ P) (hne : Prim.rd b1 i ≠ 0) :
+    i + 1 ≤ P := h.lt_of_ne hi hne
+
+theorem Agree.rd_next_of_eq (h : Agree P b1 b2) {i : Nat} (hi : i ≤ P) {c : UInt8}
+    (hc : Prim.rd b1 i = c) (hc0 : c ≠ 0) : i + 1 ≤ P :=
+  h.rd_next hi (by rw [hc]; exact hc0)
+
+/-! ### scans -/
+
+theorem skipSpaces_agree (h : Agree P b1 b2) : ∀ (f i : Nat), i ≤ P →
+    Prim.skipSpaces b1 f i = Prim.skipSpaces b2 f i ∧ Prim.skipSpaces b1 f i ≤ P := by
+  intro f
+  induction f with
+  | zero => intro i hi; exact ⟨rfl, hi⟩
+  | succ f ih =>
+    intro i hi
+    simp only [Prim.skipSpaces]
+    rw [← h.prd hi]
+    by_cases hs : Prim.isSpace (Prim.rd b1 i) = true
+    · have hne : Prim.rd b1 i ≠ 0 := by
+        intro h0; rw [h0] at hs; exact absurd hs (by decide)
+      simp only [hs, if_true]
+      exact ih (i + 1) (h.rd_next hi hne)
+    · simp only [hs]
+      exact ⟨rfl, hi⟩
+
+theorem run_agree (h : Agree P b1 b2) (p : UInt8 → Bool) (hp : p 0 = false) : ∀ (f i : Nat), i ≤ P →
+    Prim.strtodLen.run b1 p f i = Prim.strtodLen.run b2 p f i ∧ Prim.strtodLen.run b1 p f i ≤ P := by
+  intro f
+  induction f with
+  | zero => intro i hi; exact ⟨rfl, hi⟩
+  | succ f ih =>
+    intro i hi
+    simp only [Prim.strtodLen.run]
+    rw [← h.prd hi]
+    by_cases hs : p (Prim.rd b1 i) = true
+    · have hne : Prim.rd b1 i ≠ 0 := by
+        intro h0; rw [h0, hp] at hs; exact absurd hs (by decide)
+      simp only [hs, if_true]
+      exact ih (i + 1) (h.rd_next hi hne)
+    · simp only [hs]
+      exact ⟨rfl, hi⟩
+
+theorem digitsOfBase_agree (h : Agree P b1 b2) (base : Nat) : ∀ (f i acc : Nat), i ≤ P →
+    Prim.digitsOfBase b1 base f i acc = Prim.digitsOfBase b2 base f i acc ∧
+      (Prim.digitsOfBase b1 base f i acc).1 ≤ P := by
+  intro f
+  induction f with
+  | zero => intro i acc hi; exact ⟨rfl, hi⟩
+  | succ f ih =>
+    intro i acc hi
+    simp only [Prim.digitsOfBase]
+    rw [← h.prd hi]
+    cases hd : Prim.digitVal (Prim.rd b1 i) with
+    | none => exact ⟨rfl, hi⟩
+    | some d =>
+      have hne : Prim.rd b1 i ≠ 0 := by
+        intro h0
+        have h00 : Prim.digitVal 0 = none := by decide
+        rw [h0, h00] at hd; cases hd
+      simp only
+      by_cases hlt : d < base
+      · simp only [hlt, if_true]
+        exact ih (i + 1) _ (h.rd_next hi hne)
+      · simp only [hlt, if_false]
+        exact ⟨trivial, hi⟩
+
+/-! ### `strtoSyntax` -/
+
+def sgnStep (mem : Bytes) (i0 : Nat) : Bool × Nat :=
+  if Prim.rd mem i0 == 45 then (true, i0 + 1) else if Prim.rd mem i0 == 43 then (false, i0 + 1) else (false, i0)
+
+def pfxStep (mem : Bytes) (base i1 : Nat) : Nat :=
+  if base == 16 ∧ Prim.rd mem i1 == 48 ∧ (Prim.rd mem (i1 + 1) == 120 ∨ Prim.rd mem (i1 + 1) == 88) ∧
+     Prim.isHexDigit (Prim.rd mem (i1 + 2)) then i1 + 2 else i1
+
+theorem strtoSyntax_eq (mem : Bytes) (off base : Nat) :
+    Prim.strtoSyntax mem off base =
+      (let s := sgnStep mem (Prim.skipSpaces mem (mem.length - off + 1) off)
+       let i2 := pfxStep mem base s.2
+       let r := Prim.digitsOfBase mem base (mem.length - i2 + 2) i2 0
+       if r.1 == i2 then (0, false, 0) else (r.1 - off, s.1, r.2)) := rfl
+
+theorem sgnStep_agree (h : Agree P b1 b2) {i0 : Nat} (hi : i0 ≤ P) :
+    sgnStep b1 i0 = sgnStep b2 i0 ∧ (sgnStep b1 i0).2 ≤ P := by
+  unfold sgnStep
+  rw [← h.prd hi]
+  by_cases h45 : Prim.rd b1 i0 = 45
+  · have := h.rd_next_of_eq hi h45 (by decide)
+    simp [h45, this]
+  · by_cases h43 : Prim.rd b1 i0 = 43
+    · have := h.rd_next_of_eq hi h43 (by decide)
+      simp [h43, this]
+    · simp [h45, h43, hi]
+
+theorem pfxStep_agree (h : Agree P b1 b2) (base : Nat) {i1 : Nat} (hi : i1 ≤ P) :
+    pfxStep b1 base i1 = pfxStep b2 base i1 ∧ pfxStep b1 base i1 ≤ P := by
+  unfold pfxStep
+  rw [← h.prd hi]
+  by_cases h48 : Prim.rd b1 i1 = 48
+  · have hi1 := h.rd_next_of_eq hi h48 (by decide)
+    rw [← h.prd hi1]
+    by_cases hx : Prim.rd b1 (i1 + 1) = 120 ∨ Prim.rd b1 (i1 + 1) = 88
+    · have hi2 : i1 + 1 + 1 ≤ P := by
+        rcases hx with hx | hx
+        · exact h.rd_next_of_eq hi1 hx (by decide)
+        · exact h.rd_next_of_eq hi1 hx (by decide)
+      rw [← h.prd (i := i1 + 2) hi2]
+      refine ⟨rfl, ?_⟩
+      split
+      · exact hi2
+      · exact hi
+    · simp [hx, hi]
+  · simp [h48, hi]
+
+theorem strtoSyntax_agree (h : Agree P b1 b2) (off base : Nat) (ho : off ≤ P) :
+    Prim.strtoSyntax b1 off base = Prim.strtoSyntax b2 off base := by
+  rw [strtoSyntax_eq, strtoSyntax_eq]
+  have h0 := skipSpaces_agree h (b1.length - off + 1) off ho
+  rw [← h.len, ← h0.1]
+  have h1 := sgnStep_agree h h0.2
+  rw [← h1.1]
+  have h2 := pfxStep_agree h base h1.2
+  simp only
+  rw [← h2.1]
+  have h3 := digitsOfBase_agree h base (b1.length - pfxStep b1 base (sgnStep b1
+    (Prim.skipSpaces b1 (b1.length - off + 1) off)).2 + 2) _ 0 h2.2
+  rw [← h3.1]
+
+theorem strtoulTo_agree (h : Agree P b1 b2) (w off base : Nat) (ho : off ≤ P) :
+    Prim.strtoulTo w b1 off base = Prim.strtoulTo w b2 off base := by
+  unfold Prim.strtoulTo
+  rw [strtoSyntax_agree h off base ho]
+
+theorem strtolTo_agree (h : Agree P b1 b2) (w off base : Nat) (ho : off ≤ P) :
+    Prim.strtolTo w b1 off base = Prim.strtolTo w b2 off base := by
+  unfold Prim.strtolTo
+  rw [strtoSyntax_agree h off base ho]
+
+/-! ### `strtodLen` -/
+
+def dLower (b : UInt8) : UInt8 := if 65 ≤ b ∧ b ≤ 90 then b + 32 else b
+
+def dWord (mem : Bytes) (w : List UInt8) (at_ : Nat) : Bool :=
+  (w.zipIdx).all (fun (c, k) => dLower (Prim.rd mem (at_ + k)) == c)
+
+def dSign (mem : Bytes) (i0 : Nat) : Nat :=
+  if Prim.rd mem i0 == 45 ∨ Prim.rd mem i0 == 43 then i0 + 1 else i0
+
+def dFrac (mem : Bytes) (p : UInt8 → Bool) (fuel a : Nat) : Nat :=
+  if Prim.rd mem a == 46 then Prim.strtodLen.run mem p fuel (a + 1) else a
+
+def dExp (mem : Bytes) (c1 c2 : UInt8) (fuel b : Nat) : Nat :=
+  if Prim.rd mem b == c1 ∨ Prim.rd mem b == c2 then
+    let s := if Prim.rd mem (b + 1) == 45 ∨ Prim.rd mem (b + 1) == 43 then b + 2 else b + 1
+    if isDigit (Prim.rd mem s) then Prim.strtodLen.run mem isDigit fuel s else b
+  else b
+
+def dHexCond (mem : Bytes) (i1 : Nat) : Prop :=
+  Prim.rd mem i1 == 48 ∧ (Prim.rd mem (i1 + 1) == 120 ∨ Prim.rd mem (i1 + 1) == 88) ∧
+    (Prim.isHexDigit (Prim.rd mem (i1 + 2)) ∨
+      (Prim.rd mem (i1 + 2) == 46 ∧ Prim.isHexDigit (Prim.rd mem (i1 + 3))))
+
+instance (mem : Bytes) (i1 : Nat) : Decidable (dHexCond mem i1) := by
+  unfold dHexCond; infer_instance
+
+def dBody (mem : Bytes) (off i1 : Nat) : Nat :=
+  if dWord mem [105, 110, 102] i1 then
+    (if dWord mem [105, 110, 102, 105, 110, 105, 116, 121] i1 then i1 + 8 else i1 + 3) - off
+  else if dWord mem [110, 97, 110] i1 then i1 + 3 - off
+  else
+    let fuel := mem.length - i1 + 2
+    if dHexCond mem i1 then
+      let a := Prim.strtodLen.run mem Prim.isHexDigit fuel (i1 + 2)
+      let b := dFrac mem Prim.isHexDigit fuel a
+      dExp mem 112 80 fuel b - off
+    else
+      let a := Prim.strtodLen.run mem isDigit fuel i1
+      let b := dFrac mem isDigit fuel a
+      let nd := (a - i1) + (if Prim.rd mem a == 46 then b - (a + 1) else 0)
+      if nd == 0 then 0 else dExp mem 101 69 fuel b - off
+
+theorem strtodLen_eq (mem : Bytes) (off : Nat) :
+    Prim.strtodLen mem off = dBody mem off (dSign mem (Prim.skipSpaces mem (mem.length - off + 1) off)) := rfl
+
+theorem dLower_ne_zero {b c : UInt8} (hc : c ≠ 0) (h : (dLower b == c) = true) : b ≠ 0 := by
+  intro h0
+  subst h0
+  have : dLower 0 = 0 := by decide
+  rw [this] at h
+  have h' : (0 : UInt8) = c := by simpa using h
+  exact hc h'.symm
+
+theorem wordAux_agree (h : Agree P b1 b2) (at_ : Nat) : ∀ (w : List UInt8) (k : Nat),
+    (∀ c ∈ w, c ≠ 0) → at_ + k ≤ P →
+    ((w.zipIdx k).all (fun (c, j) => dLower (Prim.rd b1 (at_ + j)) == c) =
+      (w.zipIdx k).all (fun (c, j) => dLower (Prim.rd b2 (at_ + j)) == c)) ∧
+    ((w.zipIdx k).all (fun (c, j) => dLower (Prim.rd b1 (at_ + j)) == c) = true →
+      at_ + k + w.length ≤ P) := by
+  intro w
+  induction w with
+  | nil => intro k _ hk; simp [hk]
+  | cons c t ih =>
+    intro k hw hk
+    simp only [List.zipIdx_cons, List.all_cons, List.length_cons]
+    rw [← h.prd hk]
+    by_cases hc : (dLower (Prim.rd b1 (at_ + k)) == c) = true
+    · have hne := dLower_ne_zero (hw c (by simp)) hc
+      have hk1 : at_ + (k + 1) ≤ P := h.rd_next hk hne
+      have := ih (k + 1) (fun c hc => hw c (by simp [hc])) hk1
+      rw [hc]
+      simp only [Bool.true_and]
+      refine ⟨this.1, fun hh => ?_⟩
+      have := this.2 hh
+      omega
+    · simp [hc]
+
+theorem dWord_agree (h : Agree P b1 b2) (w : List UInt8) (hw : ∀ c ∈ w, c ≠ 0) {i : Nat} (hi : i ≤ P) :
+    dWord b1 w i = dWord b2 w i ∧ (dWord b1 w i = true → i + w.length ≤ P) := by
+  have := wordAux_agree h i w 0 hw (by omega)
+  exact this
+
+theorem dSign_agree (h : Agree P b1 b2) {i0 : Nat} (hi : i0 ≤ P) :
+    dSign b1 i0 = dSign b2 i0 ∧ dSign b1 i0 ≤ P := by
+  unfold dSign
+  rw [← h.prd hi]
+  by_cases h45 : Prim.rd b1 i0 = 45
+  · have := h.rd_next_of_eq hi h45 (by decide)
+    simp [h45, this]
+  · by_cases h43 : Prim.rd b1 i0 = 43
+    · have := h.rd_next_of_eq hi h43 (by decide)
+      simp [h43, this]
+    · simp [h45, h43, hi]
+
+theorem dFrac_agree (h : Agree P b1 b2) (p : UInt8 → Bool) (hp : p 0 = false) (fuel : Nat) {a : Nat}
+    (ha : a ≤ P) : dFrac b1 p fuel a = dFrac b2 p fuel a ∧ dFrac b1 p fuel a ≤ P := by
+  unfold dFrac
+  rw [← h.prd ha]
+  by_cases h46 : Prim.rd b1 a = 46
+  · have ha1 := h.rd_next_of_eq ha h46 (by decide)
+    simp only [h46, beq_self_eq_true, if_true]
+    exact run_agree h p hp fuel (a + 1) ha1
+  · simp [h46, ha]
+
+theorem dExp_agree (h : Agree P b1 b2) (c1 c2 : UInt8) (h1 : c1 ≠ 0) (h2 : c2 ≠ 0) (fuel : Nat) {b : Nat}
+    (hb : b ≤ P) : dExp b1 c1 c2 fuel b = dExp b2 c1 c2 fuel b ∧ dExp b1 c1 c2 fuel b ≤ P := by
+  unfold dExp
+  rw [← h.prd hb]
+  by_cases hc : Prim.rd b1 b = c1 ∨ Prim.rd b1 b = c2
+  · have hb1 : b + 1 ≤ P := by
+      rcases hc with hc | hc
+      · exact h.rd_next_of_eq hb hc h1
+      · exact h.rd_next_of_eq hb hc h2
+    have hc' : (Prim.rd b1 b == c1) = true ∨ (Prim.rd b1 b == c2) = true := by simpa using hc
+    simp only [hc', if_true]
+    rw [← h.prd hb1]
+    have hs : (if (Prim.rd b1 (b + 1) == 45) = true ∨ (Prim.rd b1 (b + 1) == 43) = true then b + 2
+        else b + 1) ≤ P := by
+      by_cases h45 : Prim.rd b1 (b + 1) = 45
+      · have := h.rd_next_of_eq hb1 h45 (by decide)
+        simp [h45]; omega
+      · by_cases h43 : Prim.rd b1 (b + 1) = 43
+        · have := h.rd_next_of_eq hb1 h43 (by decide)
+          simp [h43]; omega
+        · simp [h45, h43, hb1]
+    generalize (if (Prim.rd b1 (b + 1) == 45) = true ∨ (Prim.rd b1 (b + 1) == 43) = true then b + 2
+        else b + 1) = s at hs
+    rw [← h.prd hs]
+    by_cases hd : isDigit (Prim.rd b1 s) = true
+    · simp only [hd, if_true]
+      exact run_agree h isDigit (by decide) fuel s hs
+    · simp [hd, hb]
+  · have hc' : ¬ ((Prim.rd b1 b == c1) = true ∨ (Prim.rd b1 b == c2) = true) := by simpa using hc
+    simp only [hc', if_false]
+    exact ⟨trivial, hb⟩
+
+theorem dHexCond_agree (h : Agree P b1 b2) {i1 : Nat} (hi : i1 ≤ P) :
+    (dHexCond b1 i1 ↔ dHexCond b2 i1) ∧ (dHexCond b1 i1 → i1 + 2 ≤ P) := by
+  unfold dHexCond
+  rw [← h.prd hi]
+  by_cases h48 : Prim.rd b1 i1 = 48
+  · have hi1 := h.rd_next_of_eq hi h48 (by decide)
+    rw [← h.prd hi1]
+    by_cases hx : Prim.rd b1 (i1 + 1) = 120 ∨ Prim.rd b1 (i1 + 1) = 88
+    · have hi2 : i1 + 2 ≤ P := by
+        rcases hx with hx | hx
+        · exact h.rd_next_of_eq hi1 hx (by decide)
+        · exact h.rd_next_of_eq hi1 hx (by decide)
+      rw [← h.prd hi2]
+      by_cases h46 : Prim.rd b1 (i1 + 2) = 46
+      · have hi3 : i1 + 3 ≤ P := h.rd_next_of_eq hi2 h46 (by decide)
+        rw [← h.prd hi3]
+        exact ⟨Iff.rfl, fun _ => hi2⟩
+      · simp [h46, hi2]
+    · simp [hx]
+  · simp [h48]
+
+theorem dBody_hex_agree (h : Agree P b1 b2) (off : Nat) (ho : off ≤ P) (fuel : Nat) {i1 : Nat}
+    (hi2 : i1 + 2 ≤ P) :
+    (dExp b1 112 80 fuel (dFrac b1 Prim.isHexDigit fuel (Prim.strtodLen.run b1 Prim.isHexDigit fuel (i1 + 2))) - off =
+      dExp b2 112 80 fuel (dFrac b2 Prim.isHexDigit fuel (Prim.strtodLen.run b2 Prim.isHexDigit fuel (i1 + 2))) - off) ∧
+    off + (dExp b1 112 80 fuel (dFrac b1 Prim.isHexDigit fuel
+      (Prim.strtodLen.run b1 Prim.isHexDigit fuel (i1 + 2))) - off) ≤ P := by
+  have ha := run_agree h Prim.isHexDigit (by decide) fuel (i1 + 2) hi2
+  rw [← ha.1]
+  have hb := dFrac_agree h Prim.isHexDigit (by decide) fuel ha.2
+  rw [← hb.1]
+  have he := dExp_agree h 112 80 (by decide) (by decide) fuel hb.2
+  rw [← he.1]
+  exact ⟨rfl, by omega⟩
+
+theorem dBody_dec_agree (h : Agree P b1 b2) (off : Nat) (ho : off ≤ P) (fuel : Nat) {i1 : Nat}
+    (hi : i1 ≤ P) :
+    ((let a := Prim.strtodLen.run b1 isDigit fuel i1
+      let b := dFrac b1 isDigit fuel a
+      let nd := (a - i1) + (if Prim.rd b1 a == 46 then b - (a + 1) else 0)
+      if nd == 0 then 0 else dExp b1 101 69 fuel b - off) =
+     (let a := Prim.strtodLen.run b2 isDigit fuel i1
+      let b := dFrac b2 isDigit fuel a
+      let nd := (a - i1) + (if Prim.rd b2 a == 46 then b - (a + 1) else 0)
+      if nd == 0 then 0 else dExp b2 101 69 fuel b - off)) ∧
+    off + (let a := Prim.strtodLen.run b1 isDigit fuel i1
+      let b := dFrac b1 isDigit fuel a
+      let nd := (a - i1) + (if Prim.rd b1 a == 46 then b - (a + 1) else 0)
+      if nd == 0 then 0 else dExp b1 101 69 fuel b - off) ≤ P := by
+  have ha := run_agree h isDigit (by decide) fuel i1 hi
+  simp only
+  rw [← ha.1]
+  have hb := dFrac_agree h isDigit (by decide) fuel ha.2
+  rw [← hb.1, ← h.prd ha.2]
+  have he := dExp_agree h 101 69 (by decide) (by decide) fuel hb.2
+  rw [← he.1]
+  refine ⟨rfl, ?_⟩
+  have := he.2
+  repeat' split
+  all_goals omega
+
+theorem dBody_agree (h : Agree P b1 b2) (off : Nat) (ho : off ≤ P) {i1 : Nat} (hi : i1 ≤ P) :
+    dBody b1 off i1 = dBody b2 off i1 ∧ off + dBody b1 off i1 ≤ P := by
+  unfold dBody
+  have w3 := dWord_agree h [105, 110, 102] (by decide) hi
+  have w8 := dWord_agree h [105, 110, 102, 105, 110, 105, 116, 121] (by decide) hi
+  have wn := dWord_agree h [110, 97, 110] (by decide) hi
+  rw [← w3.1, ← w8.1, ← wn.1, ← h.len]
+  by_cases c3 : dWord b1 [105, 110, 102] i1 = true
+  · have l3 := w3.2 c3
+    simp only [List.length_cons, List.length_nil] at l3
+    simp only [c3, if_true]
+    by_cases c8 : dWord b1 [105, 110, 102, 105, 110, 105, 116, 121] i1 = true
+    · have l8 := w8.2 c8
+      simp only [List.length_cons, List.length_nil] at l8
+      simp only [c8, if_true]
+      exact ⟨by first | rfl | trivial, by omega⟩
+    · simp only [c8, Bool.false_eq_true, if_false]
+      exact ⟨by first | rfl | trivial, by omega⟩
+  · simp only [c3, Bool.false_eq_true, if_false]
+    by_cases cn : dWord b1 [110, 97, 110] i1 = true
+    · have ln := wn.2 cn
+      simp only [List.length_cons, List.length_nil] at ln
+      simp only [cn, if_true]
+      exact ⟨by first | rfl | trivial, by omega⟩
+    · simp only [cn, Bool.false_eq_true, if_false]
+      have hx := dHexCond_agree h hi
+      by_cases cx : dHexCond b1 i1
+      · have cx2 := hx.1.1 cx
+        simp only [cx, cx2, if_true]
+        exact dBody_hex_agree h off ho _ (hx.2 cx)
+      · have cx2 : ¬ dHexCond b2 i1 := fun c => cx (hx.1.2 c)
+        simp only [cx, cx2, if_false]
+        exact dBody_dec_agree h off ho _ hi
+
+theorem strtodLen_agree (h : Agree P b1 b2) (off : Nat) (ho : off ≤ P) :
+    Prim.strtodLen b1 off = Prim.strtodLen b2 off ∧ off + Prim.strtodLen b1 off ≤ P := by
+  rw [strtodLen_eq, strtodLen_eq]
+  have h0 := skipSpaces_agree h (b1.length - off + 1) off ho
+  rw [← h.len, ← h0.1]
+  have h1 := dSign_agree h h0.2
+  rw [← h1.1]
+  exact dBody_agree h off ho h1.2
+
+end
+
+end ScpiVerif.Lemmas.Isolation
+
+/-! # part 3: matchCommand -/
+
+namespace ScpiVerif.Lemmas.Isolation
+open ScpiVerif ScpiVerif.Lexer
+
+/-!
+Isolation of the pattern matcher: `Match.matchCommand` never reads the command buffer beyond its
+first NUL, so two buffers that agree up to and including an index holding a NUL give the same
+result.
+-/
+
+/-! ### the length of the C string is bounded by the index of any NUL -/
+
+theorem takeWhile_len_le_of_getD_zero : ∀ (c : Bytes) (Q : Nat), c.getD Q 0 = 0 →
+    (c.takeWhile (· ≠ 0)).length ≤ Q := by
+  intro c
+  induction c with
+  | nil => intro Q _; simp
+  | cons a t ih =>
+    intro Q hQ
+    rw [List.takeWhile_cons]
+    cases Q with
+    | zero =>
+      have : a = 0 := by simpa using hQ
+      subst this; simp
+    | succ Q =>
+      have h' : t.getD Q 0 = 0 := by simpa using hQ
+      have := ih Q h'
+      split
+      · simp only [List.length_cons]; omega
+      · simp
+
+/-! ### caseEq -/
+
+theorem caseEq_agree {Q : Nat} {c1 c2 : Bytes} (h : Agree Q c1 c2) (a : Bytes) :
+    ∀ (n ao bo : Nat), bo + n ≤ Q + 1 → Match.caseEq a ao c1 bo n = Match.caseEq a ao c2 bo n := by
+  intro n
+  induction n with
+  | zero => intros; rfl
+  | succ n ih =>
+    intro ao bo hb
+    simp only [Match.caseEq]
+    rw [h.mrd (show bo ≤ Q by omega), ih (ao + 1) (bo + 1) (by omega)]
+
+/-! ### sepPos -/
+
+theorem sepPos_go_agree {Q : Nat} {c1 c2 : Bytes} (h : Agree Q c1 c2) (off len : Nat) (set : List UInt8) :
+    ∀ (fuel i : Nat), off + i + fuel ≤ Q + 1 →
+      Match.sepPos.go c1 off len set fuel i = Match.sepPos.go c2 off len set fuel i := by
+  intro fuel
+  induction fuel with
+  | zero => intros; rfl
+  | succ f ih =>
+    intro i hb
+    simp only [Match.sepPos.go]
+    rw [h.mrd (show off + i ≤ Q by omega), ih (i + 1) (by omega)]
+
+theorem sepPos_agree {Q : Nat} {c1 c2 : Bytes} (h : Agree Q c1 c2) (off len : Nat) (set : List UInt8)
+    (hb : off + len ≤ Q + 1) : Match.sepPos c1 off len set = Match.sepPos c2 off len set := by
+  simp only [Match.sepPos]
+  rw [sepPos_go_agree h off len set len 0 (by omega)]
+
+theorem sepPos_le (s : Bytes) (off len : Nat) (set : List UInt8) : Match.sepPos s off len set ≤ len := by
+  simp only [Match.sepPos]
+  split
+  · omega
+  · split <;> omega
+
+/-! ### strtol10 -/
+
+theorem ws_agree {Q : Nat} {c1 c2 : Bytes} (h : Agree Q c1 c2) :
+    ∀ (f i : Nat), i ≤ Q → Match.strtol10.ws c1 f i = Match.strtol10.ws c2 f i ∧ Match.strtol10.ws c1 f i ≤ Q := by
+  intro f
+  induction f with
+  | zero => intro i hi; exact ⟨rfl, hi⟩
+  | succ f ih =>
+    intro i hi
+    simp only [Match.strtol10.ws]
+    rw [← h.mrd hi]
+    split
+    · rename_i hc
+      have hne : c1.getD i 0 ≠ 0 := by
+        intro h0
+        have : Match.rd c1 i = 0 := h0
+        rw [this] at hc
+        revert hc; decide
+      exact ih (i + 1) (h.lt_of_ne hi hne)
+    · exact ⟨rfl, hi⟩
+
+theorem isDigit_ne_zero {b : UInt8} (hb : isDigit b = true) : b ≠ 0 := by
+  intro h0; subst h0; revert hb; decide
+
+theorem dg_agree {Q : Nat} {c1 c2 : Bytes} (h : Agree Q c1 c2) :
+    ∀ (f i acc : Nat), i ≤ Q → Match.strtol10.dg c1 f i acc = Match.strtol10.dg c2 f i acc := by
+  intro f
+  induction f with
+  | zero => intros; rfl
+  | succ f ih =>
+    intro i acc hi
+    simp only [Match.strtol10.dg]
+    rw [← h.mrd hi]
+    split
+    · rename_i hc
+      exact ih (i + 1) _ (h.lt_of_ne hi (isDigit_ne_zero hc))
+    · rfl
+
+theorem strtol10_agree {Q : Nat} {c1 c2 : Bytes} (h : Agree Q c1 c2) (off : Nat) (ho : off ≤ Q) :
+    Match.strtol10 c1 off = Match.strtol10 c2 off := by
+  have hws := ws_agree h (c1.length - off) off ho
+  simp only [Match.strtol10]
+  rw [← h.len, ← hws.1]
+  have hle := hws.2
+  generalize Match.strtol10.ws c1 (c1.length - off) off = i0 at hle
+  rw [← h.mrd hle]
+  by_cases h45 : (Match.rd c1 i0 == 45) = true
+  · have hne : c1.getD i0 0 ≠ 0 := by
+      intro h0
+      have : Match.rd c1 i0 = 0 := h0
+      rw [this] at h45
+      revert h45; decide
+    have hlt := h.lt_of_ne hle hne
+    simp only [h45, if_true]
+    rw [dg_agree h _ (i0 + 1) 0 (by omega)]
+  · simp only [h45, Bool.false_eq_true, if_false]
+    by_cases h43 : (Match.rd c1 i0 == 43) = true
+    · have hne : c1.getD i0 0 ≠ 0 := by
+        intro h0
+        have : Match.rd c1 i0 = 0 := h0
+        rw [this] at h43
+        revert h43; decide
+      have hlt := h.lt_of_ne hle hne
+      simp only [h43, if_true, Bool.false_eq_true, if_false]
+      rw [dg_agree h _ (i0 + 1) 0 (by omega)]
+    · simp only [h43, Bool.false_eq_true, if_false]
+      rw [dg_agree h _ i0 0 hle]
+
+/-! ### compareStr, compareStrAndNum, matchPattern -/
+
+theorem compareStr_agree {Q : Nat} {c1 c2 : Bytes} (h : Agree Q c1 c2) (a : Bytes) (ao len1 bo len2 : Nat)
+    (hb : bo + len2 ≤ Q) :
+    Match.compareStr a ao len1 c1 bo len2 = Match.compareStr a ao len1 c2 bo len2 := by
+  simp only [Match.compareStr]
+  rw [caseEq_agree h a len2 ao bo (by omega)]
+
+theorem all_digits_agree {Q : Nat} {c1 c2 : Bytes} (h : Agree Q c1 c2) (base n : Nat) (hb : base + n ≤ Q + 1) :
+    (List.range n).all (fun i => isDigit (Match.rd c1 (base + i))) =
+    (List.range n).all (fun i => isDigit (Match.rd c2 (base + i))) := by
+  rw [Bool.eq_iff_iff, List.all_eq_true, List.all_eq_true]
+  constructor
+  · intro H i hi
+    have : i < n := List.mem_range.mp hi
+    rw [← h.mrd (show base + i ≤ Q by omega)]; exact H i hi
+  · intro H i hi
+    have : i < n := List.mem_range.mp hi
+    rw [h.mrd (show base + i ≤ Q by omega)]; exact H i hi
+
+theorem compareStrAndNum_agree {Q : Nat} {c1 c2 : Bytes} (h : Agree Q c1 c2) (a : Bytes)
+    (ao len1 bo len2 : Nat) (num : Bool) (hb : bo + len2 ≤ Q) :
+    Match.compareStrAndNum a ao len1 c1 bo len2 num = Match.compareStrAndNum a ao len1 c2 bo len2 num := by
+  simp only [Match.compareStrAndNum]
+  by_cases hl : len2 < len1
+  · simp only [hl, if_true]
+  · simp only [hl, if_false]
+    rw [caseEq_agree h a len1 ao bo (by omega), strtol10_agree h (bo + len1) (by omega),
+      all_digits_agree h (bo + len1) (len2 - len1) (by omega)]
+
+theorem matchPattern_agree {Q : Nat} {c1 c2 : Bytes} (h : Agree Q c1 c2) (p : Bytes)
+    (po plen so slen : Nat) (num : Bool) (hb : so + slen ≤ Q) :
+    Match.matchPattern p po plen c1 so slen num = Match.matchPattern p po plen c2 so slen num := by
+  simp only [Match.matchPattern]
+  simp only [compareStrAndNum_agree h p _ _ so slen num hb, compareStr_agree h p _ _ so slen hb]
+
+/-! ### mainLoop
+
+One iteration of `Match.mainLoop` is factored into pieces that do not mention the command buffer:
+the buffer enters only through `csp`, the result `mp` of `matchPattern` and the byte `c0` at the new
+command position, and through the continuation `k`. -/
+
+/-- the default-number bookkeeping at the start of an iteration -/
+def numStep (p : Bytes) (hasNumbers : Bool) (dflt : Int) (psp : Nat) (st : Match.MState) : Match.MState × Option Nat :=
+  if psp > 0 ∧ Match.rd p (st.pp + psp - 1) == 35 then
+    if hasNumbers ∧ st.idx < st.numbers.length then
+      ({ (Match.setNum st hasNumbers st.idx dflt) with idx := st.idx + 1 }, some st.idx)
+    else ({ st with idx := st.idx + 1 }, none)
+  else (st, none)
+
+/-- storing the parsed number -/
+def upd (hasNumbers : Bool) (st : Match.MState) (numPtr : Option Nat) (v : Option Int) : Match.MState :=
+  match numPtr, v with
+  | some i, some x => Match.setNum st hasNumbers i x
+  | _, _ => st
+
+/-- the rest of an iteration, given the result of `matchPattern` and the next command byte -/
+def loopTail (p : Bytes) (hasNumbers : Bool) (dflt : Int) (k : Match.MState → Bool × Match.MState)
+    (psp csp : Nat) (st : Match.MState) (numPtr : Option Nat) (mp : Bool × Option Int) (c0 : UInt8) : Bool × Match.MState :=
+  if mp.1 then
+    let st : Match.MState := upd hasNumbers st numPtr mp.2
+    let st : Match.MState := { st with pp := st.pp + psp, pl := st.pl - psp, cp := st.cp + csp, cl := st.cl - csp }
+    if st.pl == 0 ∧ st.cl == 0 then (true, st)
+    else if st.pl == 0 ∧ st.cl > 0 then (false, st)
+    else if st.cl == 0 then
+      let st : Match.MState := Match.trailingLoop p hasNumbers dflt (p.length + 2) st
+      (st.pl == 0, st)
+    else
+      let p0 := Match.rd p st.pp; let p1 := Match.rd p (st.pp + 1); let p2 := Match.rd p (st.pp + 2)
+      if st.pl > 0 ∧ p0 == c0 ∧ p0 == 58 then
+        k { st with pp := st.pp + 1, pl := st.pl - 1, cp := st.cp + 1, cl := st.cl - 1 }
+      else if st.pl > 1 ∧ p1 == c0 ∧ p0 == 91 ∧ p1 == 58 then
+        k { st with pp := st.pp + 2, pl := st.pl - 2, cp := st.cp + 1, cl := st.cl - 1, brackets := st.brackets + 1 }
+      else if st.pl > 1 ∧ p1 == c0 ∧ p0 == 93 ∧ p1 == 58 then
+        k { st with pp := st.pp + 2, pl := st.pl - 2, cp := st.cp + 1, cl := st.cl - 1, brackets := st.brackets - 1 }
+      else if st.pl > 2 ∧ p2 == c0 ∧ p0 == 93 ∧ p1 == 91 ∧ p2 == 58 then
+        k { st with pp := st.pp + 3, pl := st.pl - 3, cp := st.cp + 1, cl := st.cl - 1 }
+      else (false, st)
+  else
+    let st : Match.MState := { st with pp := st.pp + psp, pl := st.pl - psp }
+    let p0 := Match.rd p st.pp; let p1 := Match.rd p (st.pp + 1); let p2 := Match.rd p (st.pp + 2)
+    if p0 == 93 ∧ p1 == 58 then
+      k { st with pp := st.pp + 2, pl := st.pl - 2, brackets := st.brackets - 1 }
+    else if st.pl > 2 ∧ p0 == 93 ∧ p1 == 91 ∧ p2 == 58 then
+      k { st with pp := st.pp + 3, pl := st.pl - 3 }
+    else (false, st)
+
+theorem mainLoop_succ (p c : Bytes) (hasNumbers : Bool) (dflt : Int) (fuel : Nat) (st : Match.MState) :
+    Match.mainLoop p c hasNumbers dflt (fuel + 1) st =
+      if st.pl < 0 then (false, { st with oob := true }) else
+      let psp := Match.patternSeparatorPos p st.pp st.pl.toNat
+      let csp := Match.cmdSeparatorPos c st.cp st.cl
+      let x := numStep p hasNumbers dflt psp st
+      let mp := Match.matchPattern p x.1.pp psp c x.1.cp csp x.2.isSome
+      loopTail p hasNumbers dflt (Match.mainLoop p c hasNumbers dflt fuel) psp csp x.1 x.2 mp
+        (Match.rd c ((upd hasNumbers x.1 x.2 mp.2).cp + csp)) := by
+  rfl
+
+theorem setNum_cp_cl (st : Match.MState) (hn : Bool) (i : Nat) (v : Int) :
+    (Match.setNum st hn i v).cp = st.cp ∧ (Match.setNum st hn i v).cl = st.cl := by
+  simp only [Match.setNum]
+  split <;> exact ⟨rfl, rfl⟩
+
+theorem numStep_cp_cl (p : Bytes) (hn : Bool) (d : Int) (psp : Nat) (st : Match.MState) :
+    (numStep p hn d psp st).1.cp = st.cp ∧ (numStep p hn d psp st).1.cl = st.cl := by
+  simp only [numStep]
+  split
+  · split
+    · exact setNum_cp_cl st hn st.idx d
+    · exact ⟨rfl, rfl⟩
+  · exact ⟨rfl, rfl⟩
+
+theorem upd_cp_cl (hn : Bool) (st : Match.MState) (numPtr : Option Nat) (v : Option Int) :
+    (upd hn st numPtr v).cp = st.cp ∧ (upd hn st numPtr v).cl = st.cl := by
+  simp only [upd]
+  split
+  · exact setNum_cp_cl _ _ _ _
+  · exact ⟨rfl, rfl⟩
+
+theorem loopTail_congr (p : Bytes) (hn : Bool) (d : Int) (k1 k2 : Match.MState → Bool × Match.MState)
+    (psp csp : Nat) (st : Match.MState) (numPtr : Option Nat) (mp : Bool × Option Int) (c0 : UInt8)
+    (hcsp : csp ≤ st.cl)
+    (hk : ∀ st' : Match.MState, st'.cp + st'.cl = st.cp + st.cl → k1 st' = k2 st') :
+    loopTail p hn d k1 psp csp st numPtr mp c0 = loopTail p hn d k2 psp csp st numPtr mp c0 := by
+  have hu := upd_cp_cl hn st numPtr mp.2
+  simp only [loopTail]
+  generalize upd hn st numPtr mp.2 = st2 at hu ⊢
+  obtain ⟨hu1, hu2⟩ := hu
+  split
+  · split
+    · rfl
+    · split
+      · rfl
+      · split
+        · rfl
+        · rename_i hcl
+          have hcl' : st2.cl - csp ≠ 0 := by simpa using hcl
+          split
+          · apply hk; simp only []; omega
+          · split
+            · apply hk; simp only []; omega
+            · split
+              · apply hk; simp only []; omega
+              · split
+                · apply hk; simp only []; omega
+                · rfl
+  · split
+    · apply hk; rfl
+    · split
+      · apply hk; rfl
+      · rfl
+
+theorem mainLoop_agree {Q : Nat} {c1 c2 : Bytes} (h : Agree Q c1 c2) (p : Bytes) (hn : Bool) (d : Int) :
+    ∀ (fuel : Nat) (st : Match.MState), st.cp + st.cl ≤ Q →
+      Match.mainLoop p c1 hn d fuel st = Match.mainLoop p c2 hn d fuel st := by
+  intro fuel
+  induction fuel with
+  | zero => intros; rfl
+  | succ fuel ih =>
+    intro st hst
+    rw [mainLoop_succ, mainLoop_succ]
+    by_cases hpl : st.pl < 0
+    · simp only [hpl, if_true]
+    · simp only [hpl, if_false]
+      have hcsp : Match.cmdSeparatorPos c2 st.cp st.cl = Match.cmdSeparatorPos c1 st.cp st.cl :=
+        (sepPos_agree h st.cp st.cl _ (by omega)).symm
+      have hle : Match.cmdSeparatorPos c1 st.cp st.cl ≤ st.cl := sepPos_le _ _ _ _
+      rw [hcsp]
+      generalize Match.cmdSeparatorPos c1 st.cp st.cl = csp at hle
+      generalize Match.patternSeparatorPos p st.pp st.pl.toNat = psp
+      have hx := numStep_cp_cl p hn d psp st
+      generalize numStep p hn d psp st = x at hx
+      obtain ⟨hx1, hx2⟩ := hx
+      rw [← matchPattern_agree h p x.1.pp psp x.1.cp csp x.2.isSome (by omega)]
+      generalize Match.matchPattern p x.1.pp psp c1 x.1.cp csp x.2.isSome = mp
+      have hu := upd_cp_cl hn x.1 x.2 mp.2
+      rw [← h.mrd (show (upd hn x.1 x.2 mp.2).cp + csp ≤ Q by omega)]
+      apply loopTail_congr
+      · omega
+      · intro st' hst'
+        exact ih st' (by omega)
+
+/-! ### matchCommand -/
+
+/-- the walker state after the optional leading `[` and `:` of the pattern -/
+def mcStart (pattern : Bytes) (nums : List Int) (plen : Int) (clen : Nat) : Match.MState :=
+  let st : Match.MState := { pp := 0, pl := plen, cp := 0, cl := clen, brackets := 0, numbers := nums, idx := 0,
+                             oob := plen == 0 ∧ pattern.isEmpty }
+  let st : Match.MState := if Match.rd pattern st.pp == 91 then { st with pp := st.pp + 1, pl := st.pl - 1, brackets := 1 } else st
+  let st : Match.MState := if Match.rd pattern st.pp == 58 then { st with pp := st.pp + 1, pl := st.pl - 1 } else st
+  st
+
+/-- the leading-colon handling and the main loop -/
+def mcTail (pattern cmd : Bytes) (hasNumbers : Bool) (nums : List Int) (dflt : Int) (st : Match.MState) :
+    Bool × List Int × Bool :=
+  let go : Option Match.MState :=
+    if Match.rd cmd st.cp == 58 then
+      if st.cl ≥ 2 then
+        if Match.rd cmd (st.cp + 1) != 42 then some { st with cp := st.cp + 1, cl := st.cl - 1 } else none
+      else some st
+    else some st
+  match go with
+  | none => (false, nums, st.oob)
+  | some st =>
+    let (r, st) := Match.mainLoop pattern cmd hasNumbers dflt (pattern.length + cmd.length + 4) st
+    (r, st.numbers, st.oob)
+
+theorem matchCommand_eq (pattern cmd : Bytes) (len : Nat) (numbers : Option (List Int)) (dflt : Int) :
+    Match.matchCommand pattern cmd len numbers dflt =
+      let plen : Int := (pattern.takeWhile (· ≠ 0)).length
+      let clen := min ((cmd.takeWhile (· ≠ 0)).length) len
+      let q : Option (Int × Nat) :=
+        if Match.rd pattern (plen.toNat - 1) == 63 then
+          if clen > 0 ∧ Match.rd cmd (clen - 1) == 63 then some (plen - 1, clen - 1) else none
+        else some (plen, clen)
+      match q with
+      | none => (false, numbers.getD [], plen == 0)
+      | some (plen, clen) =>
+        mcTail pattern cmd numbers.isSome (numbers.getD []) dflt (mcStart pattern (numbers.getD []) plen clen) := by
+  rfl
+
+theorem mcStart_cp_cl (pattern : Bytes) (nums : List Int) (plen : Int) (clen : Nat) :
+    (mcStart pattern nums plen clen).cp = 0 ∧ (mcStart pattern nums plen clen).cl = clen := by
+  simp only [mcStart]
+  split <;> split <;> exact ⟨rfl, rfl⟩
+
+theorem mcTail_agree {Q : Nat} {c1 c2 : Bytes} (h : Agree Q c1 c2) (pattern : Bytes) (hn : Bool)
+    (nums : List Int) (dflt : Int) (st : Match.MState) (hst : st.cp + st.cl ≤ Q) :
+    mcTail pattern c1 hn nums dflt st = mcTail pattern c2 hn nums dflt st := by
+  simp only [mcTail]
+  rw [← h.mrd (show st.cp ≤ Q by omega), ← h.len]
+  by_cases h58 : (Match.rd c1 st.cp == 58) = true
+  · simp only [h58, if_true]
+    by_cases h2 : st.cl ≥ 2
+    · simp only [h2, if_true]
+      rw [← h.mrd (show st.cp + 1 ≤ Q by omega)]
+      by_cases h42 : (Match.rd c1 (st.cp + 1) != 42) = true
+      · simp only [h42, if_true]
+        rw [mainLoop_agree h pattern hn dflt _ _ (show (st.cp + 1) + (st.cl - 1) ≤ Q by omega)]
+      · simp only [h42, Bool.false_eq_true, if_false]
+    · simp only [h2, if_false]
+      rw [mainLoop_agree h pattern hn dflt _ _ hst]
+  · simp only [h58, Bool.false_eq_true, if_false]
+    rw [mainLoop_agree h pattern hn dflt _ _ hst]
+
+theorem matchCommand_agree {Q : Nat} {c1 c2 : Bytes} (h : Agree Q c1 c2) (pattern : Bytes) (len : Nat)
+    (numbers : Option (List Int)) (dflt : Int) :
+    Match.matchCommand pattern c1 len numbers dflt = Match.matchCommand pattern c2 len numbers dflt := by
+  have hcs : c1.takeWhile (· ≠ 0) = c2.takeWhile (· ≠ 0) := by
+    have := h.cstr 0 (Nat.zero_le _)
+    simpa only [List.drop_zero] using this
+  have hlen : (c1.takeWhile (· ≠ 0)).length ≤ Q := takeWhile_len_le_of_getD_zero c1 Q h.nul
+  rw [matchCommand_eq, matchCommand_eq]
+  simp only []
+  rw [← hcs]
+  have hclen : min (c1.takeWhile (· ≠ 0)).length len ≤ Q := by omega
+  generalize min (c1.takeWhile (· ≠ 0)).length len = clen at hclen
+  rw [← h.mrd (show clen - 1 ≤ Q by omega)]
+  generalize ((pattern.takeWhile (· ≠ 0)).length : Int) = plen
+  have key : ∀ (pl : Int) (cl : Nat), cl ≤ clen →
+      mcTail pattern c1 numbers.isSome (numbers.getD []) dflt (mcStart pattern (numbers.getD []) pl cl) =
+      mcTail pattern c2 numbers.isSome (numbers.getD []) dflt (mcStart pattern (numbers.getD []) pl cl) := by
+    intro pl cl hcl
+    have hs := mcStart_cp_cl pattern (numbers.getD []) pl cl
+    exact mcTail_agree h pattern _ _ dflt _ (by omega)
+  by_cases hq : (Match.rd pattern (plen.toNat - 1) == 63) = true
+  · simp only [hq, if_true]
+    by_cases h2 : clen > 0 ∧ (Match.rd c1 (clen - 1) == 63) = true
+    · simp only [h2, and_self, if_true]
+      exact key _ _ (by omega)
+    · simp only [h2, if_false]
+  · simp only [hq, Bool.false_eq_true, if_false]
+    exact key _ _ (Nat.le_refl _)
+
+end ScpiVerif.Lemmas.Isolation
+
+/-! # part 4: error push, status and queue side -/
+
+/-
+Helper lemmas for C09 (isolation): the status side of an error push and the queue side of an error
+push preserve "same persistent state" (`SameRegs`, `SameQueue`).
+-/
+namespace ScpiVerif.Lemmas.Isolation
+open ScpiVerif ScpiVerif.Props.C09
+
+/-! ### status-register side
+
+Every operation reads only `regs`, `qn`, `cap`; the logs `srq`, `errcb` are only appended to.  So each
+operation maps `SameRegs` states to `SameRegs` states. -/
+
+theorem sameRegs_put (s1 s2 : Regs.St) (h : SameRegs s1 s2) (n : Nat) (v : Regs.Reg) :
+    SameRegs (Regs.put s1 n v) (Regs.put s2 n v) := by
+  obtain ⟨h1, h2, h3⟩ := h
+  exact ⟨by simp [Regs.put, h1], h2, h3⟩
+
+theorem sameRegs_get (s1 s2 : Regs.St) (h : SameRegs s1 s2) (n : Nat) : Regs.get s1 n = Regs.get s2 n := by
+  simp [Regs.get, h.1]
+
+theorem sameRegs_mk (s1 s2 : Regs.St) (h : SameRegs s1 s2) (a b : List Regs.Reg) (c d : List Int) :
+    SameRegs { regs := s1.regs, qn := s1.qn, cap := s1.cap, srq := a, errcb := c }
+      { regs := s2.regs, qn := s2.qn, cap := s2.cap, srq := b, errcb := d } := h
+
+theorem sameRegs_ite (c : Prop) [Decidable c] (a1 a2 b1 b2 : Regs.St) (ha : c → SameRegs a1 a2)
+    (hb : ¬ c → SameRegs b1 b2) : SameRegs (if c then a1 else b1) (if c then a2 else b2) := by
+  split
+  · exact ha ‹_›
+  · exact hb ‹_›
+
+theorem sameRegs_loop (fuel : Nat) : ∀ (s1 s2 : Regs.St) (n : Nat) (v : Regs.Reg), SameRegs s1 s2 →
+    SameRegs (Regs.regSetLoop fuel s1 n v) (Regs.regSetLoop fuel s2 n v) := by
+  induction fuel with
+  | zero => intro s1 s2 n v h; exact h
+  | succ fuel ih =>
+    intro s1 s2 n v h
+    have hp := sameRegs_put s1 s2 h n v
+    have hold : s1.regs.getD n 0 = s2.regs.getD n 0 := by rw [h.1]
+    have hg := sameRegs_get _ _ hp
+    simp only [Regs.regSetLoop, hold, hg]
+    repeat' first
+      | exact h
+      | exact hp
+      | exact sameRegs_put _ _ hp _ _
+      | exact sameRegs_mk _ _ (sameRegs_put _ _ hp _ _) _ _ _ _
+      | apply ih
+      | (apply sameRegs_ite <;> intro _)
+
+theorem sameRegs_regSet (s1 s2 : Regs.St) (h : SameRegs s1 s2) (n : Nat) (v : Regs.Reg) :
+    SameRegs (Regs.regSet s1 n v) (Regs.regSet s2 n v) := by
+  unfold Regs.regSet
+  exact sameRegs_ite _ _ _ _ _ (fun _ => h) (fun _ => sameRegs_loop _ _ _ _ _ h)
+
+theorem sameRegs_regSetBits (s1 s2 : Regs.St) (h : SameRegs s1 s2) (n : Nat) (v : Regs.Reg) :
+    SameRegs (Regs.regSetBits s1 n v) (Regs.regSetBits s2 n v) := by
+  unfold Regs.regSetBits
+  rw [sameRegs_get s1 s2 h n]
+  exact sameRegs_regSet _ _ h _ _
+
+theorem sameRegs_emit (s1 s2 : Regs.St) (h : SameRegs s1 s2) (e : Int) :
+    SameRegs (Regs.emit s1 e) (Regs.emit s2 e) :=
+  sameRegs_mk _ _ (sameRegs_regSetBits _ _ h _ _) _ _ _ _
+
+theorem sameRegs_foldl {β : Type} (f : Regs.St → β → Regs.St)
+    (hf : ∀ s1 s2 b, SameRegs s1 s2 → SameRegs (f s1 b) (f s2 b)) (l : List β) :
+    ∀ s1 s2, SameRegs s1 s2 → SameRegs (l.foldl f s1) (l.foldl f s2) := by
+  induction l with
+  | nil => intro s1 s2 h; exact h
+  | cons b l ih => intro s1 s2 h; exact ih _ _ (hf _ _ b h)
+
+/-- the class-bit loop of `errPush`, for an arbitrary table -/
+theorem sameRegs_classFold (code : Int) (l : List (Int × Int × Nat)) (s1 s2 : Regs.St) (h : SameRegs s1 s2) :
+    SameRegs
+      (l.foldl (fun s (r : Int × Int × Nat) =>
+        if code ≤ r.1 ∧ code ≥ r.2.1 then Regs.regSetBits s Regs.ESR (BitVec.ofNat 16 r.2.2) else s) s1)
+      (l.foldl (fun s (r : Int × Int × Nat) =>
+        if code ≤ r.1 ∧ code ≥ r.2.1 then Regs.regSetBits s Regs.ESR (BitVec.ofNat 16 r.2.2) else s) s2) := by
+  apply sameRegs_foldl
+  · intro t1 t2 b ht
+    exact sameRegs_ite _ _ _ _ _ (fun _ => sameRegs_regSetBits _ _ ht _ _) (fun _ => ht)
+  · exact h
+
+theorem errPush_sameRegs (r1 r2 : Regs.St) (h : SameRegs r1 r2) (code : Int) :
+    SameRegs (Regs.errPush r1 code) (Regs.errPush r2 code) := by
+  obtain ⟨h1, h2, h3⟩ := h
+  have hq : SameRegs (if decide (r1.qn ≥ r1.cap) = true then r1 else { r1 with qn := r1.qn + 1 })
+      (if decide (r2.qn ≥ r2.cap) = true then r2 else { r2 with qn := r2.qn + 1 }) := by
+    rw [show decide (r1.qn ≥ r1.cap) = decide (r2.qn ≥ r2.cap) by rw [h2, h3]]
+    exact sameRegs_ite _ _ _ _ _ (fun _ => ⟨h1, h2, h3⟩) (fun _ => ⟨h1, congrArg (· + 1) h2, h3⟩)
+  have hf := sameRegs_classFold code Gen.errClassTable _ _ hq
+  unfold Regs.errPush
+  rw [show decide (r1.qn ≥ r1.cap) = decide (r2.qn ≥ r2.cap) by rw [h2, h3]] at hf ⊢
+  apply sameRegs_ite <;> intro _
+  · exact sameRegs_emit _ _ (sameRegs_emit _ _ hf _) _
+  · exact sameRegs_emit _ _ hf _
+
+/-! ### queue side -/
+
+theorem push_sameQueue (q1 q2 : Fifo.EQ) (h : SameQueue q1 q2) (w : Bool) (code : Int) (info : Option (List UInt8))
+    (infoLen : Nat) (ok : Bool) :
+    (q1.push w code info infoLen ok).2 = (q2.push w code info infoLen ok).2 ∧
+    SameQueue (q1.push w code info infoLen ok).1 (q2.push w code info infoLen ok).1 := by
+  obtain ⟨hi1, hi2, hsz, habs⟩ := h
+  have r1 := Lemmas.Fifo.step_refines q1.fifo.size w q1 (Fifo.EQ.abs q1) (.push code info infoLen ok)
+    ⟨hi1, rfl, rfl⟩
+  have r2 := Lemmas.Fifo.step_refines q1.fifo.size w q2 (Fifo.EQ.abs q1) (.push code info infoLen ok)
+    ⟨hi2, hsz.symm, habs.symm⟩
+  obtain ⟨o1, j1, s1, a1⟩ := r1
+  obtain ⟨o2, j2, s2, a2⟩ := r2
+  have ho := o1.trans o2.symm
+  simp only [Fifo.EQ.step] at ho j1 s1 a1 j2 s2 a2
+  refine ⟨Fifo.Obs.pushed.inj ho, j1, j2, s1.trans s2.symm, a1.trans a2.symm⟩
+
+end ScpiVerif.Lemmas.Isolation
+
+/-! # part 5: the simulation -/
 
 namespace ScpiVerif.Lemmas.Isolation
 open ScpiVerif ScpiVerif.Lexer ScpiVerif.Ctx ScpiVerif.Props.C09 ScpiVerif.Result
@@ -1465,15 +2535,93 @@ theorem rel_of_simW {P : Nat} {d1 d2 : Ctx} (h : SimW P d1 d2) : Rel d1 d2 := by
 theorem simW_of_rel {c1 c2 : Ctx} (h : Rel c1 c2) (data : Bytes) (hb : c1.position + data.length < c1.bufLen) :
     SimW (c1.position + data.length)
       { c1 with buf := (poke c1.buf c1.position data).set (c1.position + data.length) 0, position := c1.position + data.length }
-      { c2 with buf := (poke c2.buf c2.position data).set (c2.position + data.length) 0, position := c2.position + data.length } := by
+      { c2 with buf := (poke c2.buf c1.position data).set (c1.position + data.length) 0, position := c1.position + data.length } := by
   obtain ⟨r1, r2, r3, r4, r5, r6, r7, r8, r9, r10, r11⟩ := h
   have hl : c1.buf.length = c2.buf.length := by rw [r5, r6, r4]
   have ha := agree_input hl c1.position (by rw [r9, r7]) data (by omega)
-  rw [← r7]
   refine ⟨r1.symm, r2.symm, r3.symm, r4.symm, rfl, ha, ?_, ?_, Nat.le_refl _, r10, r11⟩
   · show _ < ((poke _ _ _).set _ _).length
     rw [List.length_set, Bounds.poke_length]; omega
   · show ((poke _ _ _).set _ _).length = _
     rw [List.length_set, Bounds.poke_length]; exact r5
+
+theorem SimW.emit {P : Nat} {c1 c2 : Ctx} (h : SimW P c1 c2) (e1 e2 : Ev) : SimW P (emit c1 e1) (emit c2 e2) :=
+  ⟨h.cmds, h.choices, h.withInfo, h.bufLen, h.position, h.buf, h.inb, h.blen, h.pos, h.regs, h.eq⟩
+
+theorem finish_empty {P : Nat} {c1 c2 : Ctx} {x1 x2 : Ctx × Bool} (hs : SimW P x1.1 x2.1) (hst : Step c1 c2 x1.1 x2.1)
+    (hv : x1.2 = x2.2) :
+    Step c1 c2 (emit { x1.1 with position := 0 } (.input x1.2)) (emit { x2.1 with position := 0 } (.input x2.2)) ∧
+    Rel (emit { x1.1 with position := 0 } (.input x1.2)) (emit { x2.1 with position := 0 } (.input x2.2)) := by
+  obtain ⟨d1, r1⟩ := x1
+  obtain ⟨d2, r2⟩ := x2
+  simp only at hs hst hv ⊢
+  subst hv
+  have hw : SimW P { d1 with position := 0 } { d2 with position := 0 } :=
+    ⟨hs.cmds, hs.choices, hs.withInfo, hs.bufLen, rfl, hs.buf, hs.inb, hs.blen, Nat.zero_le _, hs.regs, hs.eq⟩
+  exact ⟨(hst.trans (Step.of_eq rfl rfl rfl rfl)).trans (Step.emit _ _ _), rel_of_simW (hw.emit _ _)⟩
+
+theorem finish_data {P : Nat} {c1 c2 : Ctx} {x1 x2 : Ctx × Bool} (hs : SimW P x1.1 x2.1) (hst : Step c1 c2 x1.1 x2.1)
+    (hv : x1.2 = x2.2) :
+    Step c1 c2 (emit x1.1 (.input x1.2)) (emit x2.1 (.input x2.2)) ∧
+    Rel (emit x1.1 (.input x1.2)) (emit x2.1 (.input x2.2)) := by
+  obtain ⟨d1, r1⟩ := x1
+  obtain ⟨d2, r2⟩ := x2
+  simp only at hs hst hv ⊢
+  subst hv
+  exact ⟨hst.trans (Step.emit _ _ _), rel_of_simW (hs.emit _ _)⟩
+
+theorem input_step (c1 c2 : Ctx) (h : Rel c1 c2) (data : Bytes) :
+    Step c1 c2 (input c1 data) (input c2 data) ∧ Rel (input c1 data) (input c2 data) := by
+  have hh := h
+  obtain ⟨r1, r2, r3, r4, r5, r6, r7, r8, r9, r10, r11⟩ := hh
+  unfold input
+  have e0 : (data.length + 1 > c2.bufLen - c2.position) = (data.length + 1 > c1.bufLen - c1.position) := by rw [r4, r7]
+  simp only [e0]
+  rw [← r7]
+  by_cases hd : (data.length == 0) = true
+  · rw [if_pos hd, if_pos hd]
+    have hw : SimW c1.position { c1 with buf := c1.buf.set c1.position 0 }
+        { c2 with buf := c2.buf.set c1.position 0, position := c1.position } :=
+      simW_of_rel h [] (by simp only [List.length_nil, Nat.add_zero]; omega)
+    have hp := parse_sim hw 0 c1.position (by omega)
+    exact finish_empty hp.1 ((Step.of_eq rfl rfl rfl rfl).trans hp.2.1) hp.2.2
+  · rw [if_neg hd, if_neg hd]
+    by_cases ho : data.length + 1 > c1.bufLen - c1.position
+    · rw [if_pos ho, if_pos ho]
+      have hw0 : SimW 0 { c1 with position := 0, buf := c1.buf.set 0 0 } { c2 with position := 0, buf := c2.buf.set 0 0 } := by
+        have hl : c1.buf.length = c2.buf.length := by rw [r5, r6, r4]
+        have ha := agree_input hl 0 (by simp) [] (by simp only [List.length_nil, Nat.add_zero]; omega)
+        refine ⟨r1.symm, r2.symm, r3.symm, r4.symm, rfl, ha, ?_, ?_, Nat.le_refl _, r10, r11⟩
+        · show 0 < (c1.buf.set 0 0).length
+          rw [List.length_set]; omega
+        · show (c1.buf.set 0 0).length = _
+          rw [List.length_set]; exact r5
+      have hs := pushError_simW hw0 (-363) none 0
+      have hst := pushError_step hw0 (-363) none 0
+      exact ⟨((Step.of_eq rfl rfl rfl rfl).trans hst).trans (Step.emit _ _ _), rel_of_simW (hs.emit _ _)⟩
+    · rw [if_neg ho, if_neg ho]
+      have hw := simW_of_rel h data (by omega)
+      have hp := inputLoop_sim (c1.position + data.length + 2) _ _ 0 true hw (Nat.zero_le _)
+      exact finish_data hp.1 ((Step.of_eq rfl rfl rfl rfl).trans hp.2.1) hp.2.2
+
+theorem input_noninterference (c1 c2 : Ctx) (h : Rel c1 c2) (data : Bytes) :
+    newObs c1 (input c1 data) = newObs c2 (input c2 data) ∧ Rel (input c1 data) (input c2 data) :=
+  ⟨(input_step c1 c2 h data).1.newObs, (input_step c1 c2 h data).2⟩
+
+theorem stream_step (chunks : List Bytes) : ∀ (c1 c2 : Ctx), Rel c1 c2 →
+    Step c1 c2 (chunks.foldl input c1) (chunks.foldl input c2) ∧ Rel (chunks.foldl input c1) (chunks.foldl input c2) := by
+  induction chunks with
+  | nil => intro c1 c2 h; exact ⟨Step.refl _ _, h⟩
+  | cons d ds ih =>
+    intro c1 c2 h
+    rw [List.foldl_cons, List.foldl_cons]
+    obtain ⟨a, b⟩ := input_step c1 c2 h d
+    obtain ⟨a', b'⟩ := ih _ _ b
+    exact ⟨a.trans a', b'⟩
+
+theorem stream_noninterference (c1 c2 : Ctx) (h : Rel c1 c2) (chunks : List Bytes) :
+    newObs c1 (chunks.foldl input c1) = newObs c2 (chunks.foldl input c2) ∧
+    Rel (chunks.foldl input c1) (chunks.foldl input c2) :=
+  ⟨(stream_step chunks c1 c2 h).1.newObs, (stream_step chunks c1 c2 h).2⟩
 
 end ScpiVerif.Lemmas.Isolation
